@@ -54,10 +54,10 @@ func (c CutCase) Coq() string {
 		minor = 0
 	}
 	closed := c.ClientEnd == "eof" || c.ClientEnd == "reset"
-	return fmt.Sprintf("(mkfcase %d %s %s %d %d %s %s %s %d %d %d %d %s %s %d %d %d %d %s %s)",
+	return fmt.Sprintf("(mkfcase %d %s %s %d %d %s %s %s %d %d %d %d %s %s %d %d %d %d %s %s %s)",
 		fr, coqfmt.Bool(c.End == "rst" || c.End == "tlscut" || c.End == "corrupt"), coqfmt.Bool(c.Full), c.UpStatus, c.BodySent, bodyRef,
 		coqfmt.Bytes(c.Raw), coqfmt.Bool(c.ClientEnd == "eof"), verdictN(c.Go.Verdict), c.Go.Status, c.Go.BodyLen, c.Go.RestLen,
-		coqfmt.Bool(hasErrHdr), coqfmt.Bool(c.HarnessErr == ""), c.K, c.HeadLen, c.ReplyLen, minor, coqfmt.Bool(closed), coqfmt.Bool(c.Route == "connect-reject"))
+		coqfmt.Bool(hasErrHdr), coqfmt.Bool(c.HarnessErr == ""), c.K, c.HeadLen, c.ReplyLen, minor, coqfmt.Bool(closed), coqfmt.Bool(c.Route == "connect-reject"), coqfmt.Bool(c.Route == "handler"))
 }
 
 // CutBodyCoq is the Gallina definition of the shared body constant.
@@ -180,6 +180,19 @@ func CutCases(tier string) []CutCase {
 			}
 		}
 	}
+	// the proxy served through martian's http.Handler on net/http's server
+	for _, framing := range []string{"length", "chunked", "close"} {
+		reply, hl := cutReply(framing)
+		for _, end := range []string{"fin", "rst"} {
+			for k := 0; k <= len(reply); k++ {
+				if tier != "thorough" && k != len(reply) && k != hl && k%5 != 0 {
+					continue
+				}
+				out = append(out, CutCase{Name: fmt.Sprintf("cut-handler-%s-HTTP/1.1-%s-%d", framing, end, k),
+					Route: "handler", Framing: framing, Proto: "HTTP/1.1", Method: "GET", K: k, End: end})
+			}
+		}
+	}
 	for _, route := range []string{"tls", "mitm"} {
 		for _, framing := range []string{"length", "chunked", "close"} {
 			reply, hl := cutReply(framing)
@@ -209,6 +222,7 @@ type CutRig struct {
 	origin    *Peer
 	originTLS *Peer
 	upstream  *Peer
+	handlerRig *Rig
 	rejecter  *Peer // upstream proxy that rejects every CONNECT with a reply cut as its target host name says
 	rejRig    *Rig
 }
@@ -388,6 +402,9 @@ func NewCutRig() (*CutRig, error) {
 	if cr.rejRig, err = New(Options{Upstream: "http://" + cr.rejecter.Addr}); err != nil {
 		return nil, err
 	}
+	if cr.handlerRig, err = New(Options{Handler: true}); err != nil {
+		return nil, err
+	}
 	if cr.tlsRig, err = New(Options{InsecureUpstream: true}); err != nil {
 		return nil, err
 	}
@@ -405,6 +422,7 @@ func (cr *CutRig) Close() {
 	cr.mitmRig.Close()
 	cr.rejRig.Close()
 	cr.rejecter.Close()
+	cr.handlerRig.Close()
 	cr.origin.Close()
 	cr.originTLS.Close()
 	cr.upstream.Close()
@@ -442,6 +460,8 @@ func (cr *CutRig) Run(c *CutCase) {
 		rig = cr.mitmRig
 	case "connect-reject":
 		rig = cr.rejRig
+	case "handler":
+		rig = cr.handlerRig
 	}
 	raw, err := Dial(rig.Addr)
 	if err != nil {
